@@ -277,6 +277,12 @@ class Project:
         for m in self.modules.values():
             for f in m.all_funcs:
                 self._func_by_node[id(f.node)] = f
+        # every call knows the (innermost) function it sits in, so that accessors can look through single-use temporaries (wire.kw)
+        for m in self.modules.values():
+            for f in sorted(m.all_funcs, key=lambda x: x.node.lineno):
+                for n in ast.walk(f.node):
+                    if isinstance(n, ast.Call):
+                        n._sa_fn = f.node   # later (inner) functions overwrite the outer one
 
     # ------------------------------------------------------------------ indexing
     def _index(self, m: ModuleInfo):
@@ -682,11 +688,11 @@ def canon_unparse(n) -> str:
         return unparse(n)
 
 
-def canon_src(src: str) -> str:
+def canon_src(src: str, limit: int = 160) -> str:
     """the canonical normalised text of a source fragment written by hand in a rule (expression or statement)"""
     tree = canonicalise(ast.parse(src.strip()))
     node = tree.body[0]
-    return norm_text(node.value if isinstance(node, ast.Expr) else node)
+    return norm_text(node.value if isinstance(node, ast.Expr) else node, limit)
 
 
 def norm_text(n, limit: int = 160) -> str:
